@@ -289,6 +289,13 @@ func runC02(e *Engine, r *Report) {
 
 	// ---- determinism of the apply path
 	runDET(e, r)
+	// loop-carried flags on the apply path accumulate (generic.go)
+	ruleLoopAcc(e, r, 2, "internal/rsm")
+	if tblM, err := e.RaftHandlerTable(); err == nil {
+		ruleMatchAck(e, r, tblM)
+	} else {
+		r.undecided("TBL", "raft handler table", err.Error())
+	}
 }
 
 // runDET: no wall clock / randomness / unordered map iteration feeding state
